@@ -11,6 +11,7 @@ package main
 
 import (
 	"context"
+	"errors"
 	"fmt"
 	"io"
 	"sync/atomic"
@@ -344,16 +345,103 @@ func overlapProbe() ProbeReport {
 	rep := ProbeReport{}
 	for _, form := range []string{"plain", "multi-return", "multi-return-nil", "result", "result-nil-field", "result-group", "as-two"} {
 		for _, life := range []string{"scoped", "transient"} {
-			rep.Rounds++
-			if msg := overlapRound(form, life); msg != "" {
-				rep.Bad = append(rep.Bad, fmt.Sprintf("%s/%s: %s", form, life, msg))
+			for _, who := range []string{"scope", "provider"} {
+				rep.Rounds++
+				if msg := overlapRound(form, life, who); msg != "" {
+					rep.Bad = append(rep.Bad, fmt.Sprintf("%s/%s/closed-by-%s: %s", form, life, who, msg))
+				}
 			}
+		}
+	}
+	for _, shape := range []string{"own-scope", "parent-from-child", "twice"} {
+		rep.Rounds++
+		if msg := reentrantRound(shape); msg != "" {
+			rep.Bad = append(rep.Bad, fmt.Sprintf("re-entrant Close/%s: %s", shape, msg))
 		}
 	}
 	return rep
 }
 
-func overlapRound(form, life string) (msg string) {
+// reentrantRound: a Close method that itself calls Close on the scope being closed (an instance that holds the
+// injected Scope), or on the parent that is closing it. "Calling Close again ... returns nil and closes nothing a
+// second time" - and does not wait for itself.
+type vCloser struct {
+	target func() godi.Scope
+	n      *int32
+	inner  *error
+}
+
+func (c *vCloser) Close() error {
+	atomic.AddInt32(c.n, 1)
+	if t := c.target(); t != nil {
+		*c.inner = t.Close()
+	}
+	return nil
+}
+
+func reentrantRound(shape string) (msg string) {
+	defer func() {
+		if v := recover(); v != nil {
+			msg = fmt.Sprintf("panic: %v", v)
+		}
+	}()
+	must := func(err error) {
+		if err != nil {
+			panic(err)
+		}
+	}
+	var n int32
+	var inner error
+	var parent godi.Scope
+	c := godi.NewCollection()
+	must(c.AddScoped(func(s godi.Scope) *vCloser {
+		return &vCloser{n: &n, inner: &inner, target: func() godi.Scope {
+			if shape == "parent-from-child" {
+				return parent
+			}
+			return s
+		}}
+	}))
+	p, err := c.Build()
+	must(err)
+	defer func() { go p.Close() }() // (not waited for: a Close that waits for itself would hang the probe)
+	s, err := p.CreateScope(context.Background())
+	must(err)
+	parent = s
+	victim := s
+	if shape == "parent-from-child" {
+		ch, err := s.CreateScope(context.Background())
+		must(err)
+		victim = ch
+	}
+	_, err = godi.Resolve[*vCloser](victim)
+	must(err)
+	done := make(chan error, 1)
+	go func() {
+		err := s.Close()
+		if shape == "twice" && err == nil {
+			err = s.Close()
+		}
+		done <- err
+	}()
+	select {
+	case err := <-done:
+		if err != nil {
+			return fmt.Sprintf("Close returned %v", err)
+		}
+	case <-time.After(5 * time.Second):
+		return "Close never returned (it waits for itself)"
+	}
+	if inner != nil {
+		return fmt.Sprintf("the inner Close returned %v", inner)
+	}
+	if got := atomic.LoadInt32(&n); got != 1 {
+		return fmt.Sprintf("the instance was closed %d times", got)
+	}
+	return ""
+}
+
+func overlapRound(form, life, who string) (msg string) {
 	defer func() {
 		if v := recover(); v != nil {
 			msg = fmt.Sprintf("panic: %v", v)
@@ -430,7 +518,13 @@ func overlapRound(form, life string) (msg string) {
 		return "the resolution never reached the constructor"
 	}
 	closed := make(chan error, 1)
-	go func() { closed <- s.Close() }()
+	go func() {
+		if who == "provider" {
+			closed <- p.Close()
+		} else {
+			closed <- s.Close()
+		}
+	}()
 	closeDone := false
 	select {
 	case <-closed:
@@ -448,6 +542,9 @@ func overlapRound(form, life string) (msg string) {
 	if r.panic != nil {
 		return fmt.Sprintf("the pending resolution panicked: %v", r.panic)
 	}
+	if r.err != nil && !errors.Is(r.err, godi.ErrScopeDisposed) && !errors.Is(r.err, godi.ErrProviderDisposed) {
+		return fmt.Sprintf("the pending resolution neither completed nor reported the disposed error: %v", r.err)
+	}
 	if !closeDone {
 		select {
 		case <-closed:
@@ -461,6 +558,167 @@ func overlapRound(form, life string) (msg string) {
 	}
 	if atomic.LoadInt32(&ca) > 1 || atomic.LoadInt32(&cb) > 1 {
 		return "an instance was closed twice"
+	}
+	return ""
+}
+
+// ---------------------------------------------------------------------------------------------------------------
+// Create probe (C09, C11, C13): a scope whose creation overlaps the Close of what it is created from.
+//
+//  (a) an initializer of the child scope closes the parent scope (one goroutine): the child must be refused with the
+//      disposed error or be closed with its parent - never live on below a closed parent;
+//  (b) CreateScope on the provider is held inside an initializer while provider.Close starts, and is released while
+//      that Close is busy inside a singleton's Close method: the scope must be refused, or closed by the time both
+//      calls have returned.
+// In both rounds a scoped disposable made in the new scope must have been closed exactly once when everything is over,
+// and before the singleton it depends on.
+
+type kDB struct {
+	log  *oLog
+	hold chan struct{}
+	at   chan struct{}
+}
+
+func (d *kDB) Close() error {
+	d.log.add("close db")
+	if d.hold != nil {
+		d.at <- struct{}{}
+		<-d.hold
+	}
+	return nil
+}
+
+type kPlain struct{}
+
+type kTx struct {
+	db  *kDB
+	log *oLog
+}
+
+func (t *kTx) Close() error { t.log.add("close tx"); return nil }
+
+func createProbe() ProbeReport {
+	rep := ProbeReport{}
+	for _, round := range []string{"initializer-closes-parent", "provider-close-overlaps-create"} {
+		rep.Rounds++
+		if msg := createRound(round); msg != "" {
+			rep.Bad = append(rep.Bad, round+": "+msg)
+		}
+	}
+	return rep
+}
+
+func createRound(round string) (msg string) {
+	defer func() {
+		if v := recover(); v != nil {
+			msg = fmt.Sprintf("panic: %v", v)
+		}
+	}()
+	must := func(err error) {
+		if err != nil {
+			panic(err)
+		}
+	}
+	lg := &oLog{ch: make(chan string, 64)}
+	var parent godi.Scope
+	closeParent := false
+	holdInit := make(chan struct{})
+	inInit := make(chan struct{}, 1)
+	blockInit := false
+	db := &kDB{log: lg}
+	c := godi.NewCollection()
+	must(c.AddSingleton(func() *kDB { return db }))
+	must(c.AddScoped(func(d *kDB) *kTx { return &kTx{d, lg} }))
+	must(c.AddScoped(func() *kPlain { return &kPlain{} }))
+	must(c.AddScoped(func(s godi.Scope) {
+		if closeParent && parent != nil {
+			closeParent = false
+			_ = parent.Close()
+		}
+		if blockInit {
+			blockInit = false
+			inInit <- struct{}{}
+			<-holdInit
+		}
+	}))
+	p, err := c.Build()
+	must(err)
+	var child godi.Scope
+	var cerr error
+	switch round {
+	case "initializer-closes-parent":
+		parent, err = p.CreateScope(context.Background())
+		must(err)
+		closeParent = true
+		child, cerr = parent.CreateScope(context.Background()) // a context of its own: no watcher will reap it
+	default:
+		db.hold, db.at = make(chan struct{}), make(chan struct{}, 1)
+		blockInit = true
+		created := make(chan struct{})
+		go func() {
+			child, cerr = p.CreateScope(context.Background())
+			close(created)
+		}()
+		select {
+		case <-inInit:
+		case <-time.After(5 * time.Second):
+			return "CreateScope never reached the initializer"
+		}
+		closed := make(chan struct{})
+		go func() { _ = p.Close(); close(closed) }()
+		select {
+		case <-db.at: // provider.Close is inside the singleton's Close
+		case <-time.After(5 * time.Second):
+			return "provider.Close never reached the singleton"
+		}
+		close(holdInit)
+		select {
+		case <-created:
+		case <-time.After(5 * time.Second):
+			return "CreateScope never returned"
+		}
+		close(db.hold)
+		select {
+		case <-closed:
+		case <-time.After(5 * time.Second):
+			return "provider.Close never returned"
+		}
+	}
+	if cerr == nil && child != nil {
+		// the scope was handed out: it must not be usable below / next to something that is closed
+		_, e1 := godi.Resolve[*kTx](child)
+		_, e2 := godi.Resolve[*kPlain](child)
+		if e1 == nil || e2 == nil {
+			_ = p.Close()
+			var evs []string
+			for len(lg.ch) > 0 {
+				evs = append(evs, <-lg.ch)
+			}
+			return fmt.Sprintf("the new scope is alive and resolves services although what it was created from is closed (Close calls so far: %v)", evs)
+		}
+	} else if !errors.Is(cerr, godi.ErrScopeDisposed) && !errors.Is(cerr, godi.ErrProviderDisposed) {
+		return fmt.Sprintf("CreateScope failed with %v, not with a disposed error", cerr)
+	}
+	_ = p.Close()
+	var evs []string
+	for len(lg.ch) > 0 {
+		evs = append(evs, <-lg.ch)
+	}
+	ntx, ndb, dbAt := 0, 0, -1
+	for i, e := range evs {
+		switch e {
+		case "close tx":
+			ntx++
+			if dbAt >= 0 {
+				return fmt.Sprintf("a scoped instance was closed after the singleton it holds: %v", evs)
+			}
+		case "close db":
+			ndb++
+			dbAt = i
+		}
+	}
+	if ndb != 1 || ntx > 1 {
+		return fmt.Sprintf("Close calls %v", evs)
 	}
 	return ""
 }
